@@ -10,6 +10,7 @@ import numpy as np
 from symx.explore import Harness
 from symx import load
 from harness import common
+from harness import shared
 
 BOUNDS = {
     "quick": {"clean": "variable of 3 values, each masked / NaN / -999 / >1e30 / ordinary", "token": "1 token",
@@ -177,6 +178,7 @@ def harnesses(tier):
     hs = [
         Harness("text_token", h_token(), "Text._clean on a symbolic token"),
         Harness("netcdf_clean", h_clean((3,)), "util.clean on a symbolic masked variable"),
+        Harness("ensemble_missing", shared.h_ensemble_probability(2, 1, 2), "a probability derived from an ensemble whose members are all missing is missing"),
         Harness("metrics_via_data", h_metrics(2, 2 if thorough else 1, 1 if thorough else 2, thorough),
                 "Metric.compute over Data with missing and infinite cells"),
     ]
